@@ -352,7 +352,8 @@ def register(db):
         params={"self": decoder, "data": "u:Json", "classes": "seq[u:type]"},
         requires=["isinstance(data, dict)"],
         call_variants={f"{DD}.bind_dataclass": [("candidate-of-a-best-match", {"caller_config": "self.config", "caller_context": "self.context"})] * 1},
-        ensures=[], raises=dict(DOCUMENTED), returns="u:Any", properties=P + ["C04", "C10"],
+        ensures=[("the-decoder-own-options-are-never-written", "unmodified(self.config)")],
+        raises=dict(DOCUMENTED), returns="u:Any", properties=P + ["C04", "C10", "C14"],
         loops=[Loop(invariants=[], header="classes", vars={"obj": "u:Any|None", "max_score": "real", "candidate": "u:Any|None", "score": "real"})],
     ))
     # ------------------------------------------------------------------ JsonParser: bytes -> document -> model
